@@ -6,7 +6,8 @@ from ..core import HEADER, CASE_TYPE, CHECK, MODEL_VIEW, SHARD, CASE_TIMEOUT, ob
 
 ID = "C10"
 THEOREMS = ["C10_if_true", "C10_if_false_else", "C10_if_false_nothing", "C10_condition", "C10_for", "C10_for_range",
-            "C10_for_empty", "C10_sequence", "C10_for_unrolled_assembly", "C10_for_unrolled_labels", "C10_kind_invisible"]
+            "C10_for_empty", "C10_sequence", "C10_for_unrolled_assembly", "C10_for_unrolled_labels", "C10_kind_invisible",
+            "C10_if_assembly", "C10_if_true_assembly", "C10_if_undefined_assembly", "C10_if_false_assembly", "C10_nesting_stable"]
 RULE = ("generated programs with .if (zero, non-zero, negative, large, undefined-name conditions, with/without else) and "
         ".for (empty, single, many, negative start, bounds from constants and macro parameters) incl. nesting and use inside "
         "macros; each compared with the model and with its hand-expanded twin (selected branch inline, { v = k body } per "
@@ -17,7 +18,9 @@ PROVED_NOTE = ("proved: .if = its first block / else block / nothing according t
                "precedes, the loop, what follows; all passes) of a program with .for and of its hand-unrolled twin "
                "{ v = k body }... fail with the same error kind or give the same writer blocks, and the label listing differs "
                "only by the labels of the loop's internal scopes (simulation over every resolver operation, node and pass). "
-               "Correspondence-only: that codegen.py computes what the model computes; the .if half is proved at code-generation level.")
+               ".if END TO END: assemble_ast of a program with .if = assemble_ast of the program with the selected branch written in place "
+               "(non-zero incl. negative -> first block, zero/undefined -> else or nothing), up to the nesting limit (the branch is one level "
+               "deeper; side condition shown necessary). Correspondence-only: that codegen.py computes what the model computes.")
 MANIFEST = {
     "text": ("Coq theorems over the Gallina model of generate_if/generate_for (all conditions, bounds, bodies); model tied to "
              "the code by differential runs; oracle: the implementation's output for the program equals its output for the "
